@@ -1,6 +1,7 @@
 """Small layers: generators + documented-meaning oracles for the tracker probe (C17), the output checkers (C12),
 the file checkers (C13), the map resource (C14) and key identity (C15)."""
 import random
+from . import common as C
 
 # ----------------------------------------------------------------------------- tracker probe (C17)
 
@@ -212,7 +213,7 @@ def gen_map_case(rng):
 
 
 def gen_map_cases(rng, tier):
-    n = 600 if tier == 'quick' else 20000
+    n = C.quick_n(600, tier) if tier == 'quick' else 20000
     corpus = ["w 1 5 7 t 0 1 5 x 1 5 c 0 r 1 5".split(),                 # stamped Some, then removed: inconsistent
               "t 0 1 5 w 1 5 7 c 0 x 1 5 c 0".split(),
               "w 1 1 1 w 2 1 2 w 3 1 3 r 1 1 r 2 1 r 3 1 d 2 1003 r 1 1 r 2 1 r 3 1".split(),
@@ -320,7 +321,7 @@ def gen_keys_cases(rng, tier):
               "R 2 0 R 3 0 E 2 0 5 b 2 0 R 2 0 R 3 0 E 3 0 7 b 2 0 b 3 0".split(),        # zero-sized resource types, boxed change reports
               "R 0 1 R 1 1 E 0 1 4 b 1 1 b 0 1 R 0 1 R 1 1".split(),
               "E 4 0 3 R 4 0 R 4 1 E 4 2 5 b 4 1 R 4 2 R 4 3 E 4 4 1 R 4 5".split()]      # one file under three equal spellings of its path
-    return corpus + [gen_keys_case(rng) for _ in range(500 if tier == 'quick' else 15000)]
+    return corpus + [gen_keys_case(rng) for _ in range(C.quick_n(500, tier) if tier == 'quick' else 15000)]
 
 
 MODK = 1000003
@@ -403,7 +404,7 @@ def gen_fs_cases(rng, tier):
         "F 10 0 3000000000 | F 10 0 3000000001".split(), "D 3000000000 1 a | D 3000000000 1 a".split(),
         "A | F 0 0 100".split(), "F 0 0 100 | A".split(), "A | A".split(), "D 100 0 | A".split(),
     ]
-    n = 260 if tier == 'quick' else 6000
+    n = C.quick_n(260, tier) if tier == 'quick' else 6000
     for i in range(n):
         s1 = fs_state(rng)
         if rng.random() < 0.35 and s1[0] == 'F':            # a near twin: same size, other variant or other mtime
